@@ -346,11 +346,13 @@ fn main() {
                 } else {
                     (0..=s.len() + 1).collect()
                 };
-                let _ = writeln!(out, "{}\tI {}\tP {}", parts[1], c12::<Typed>(&s, &offs), c12::<Pest>(&s, &offs));
+                let i = catch_unwind(AssertUnwindSafe(|| c12::<Typed>(&s, &offs))).unwrap_or_else(|_| "PANIC".to_string());
+                let _ = writeln!(out, "{}\tI {}\tP {}", parts[1], i, c12::<Pest>(&s, &offs));
             }
             "S" | "V" => {
                 let v = parts[0] == "V";
-                let _ = writeln!(out, "{}\tI {}\tP {}", parts[1], c13::<Typed>(&s, v), c13::<Pest>(&s, v));
+                let i = catch_unwind(AssertUnwindSafe(|| c13::<Typed>(&s, v))).unwrap_or_else(|_| "PANIC".to_string());
+                let _ = writeln!(out, "{}\tI {}\tP {}", parts[1], i, c13::<Pest>(&s, v));
             }
             _ => {
                 let _ = writeln!(out, "{}\tI BADCASE\tP BADCASE", parts[1]);
